@@ -62,6 +62,110 @@ pub struct Script {
     /// new builder: call truncate() before pushing item number n
     pub truncate_before: Option<usize>,
     pub crosses: bool,
+    /// header operations executed through the builders' `header_mut()` in
+    /// this order; `.0` = phase: 0 right after construction, 1 after the
+    /// questions, 2 after the last push (non-decreasing)
+    pub hdr_ops: Vec<(u8, HOp)>,
+}
+
+/// One header operation both builders offer (the new `HeaderFlags` has no
+/// setter for the Z bit, so there is none here; the initial flag word may
+/// carry it and every operation must preserve it).
+#[derive(Clone, Copy, Debug, Hash, PartialEq, Eq)]
+pub enum HOp {
+    Id(u16),
+    Qr(bool),
+    Opcode(u8),
+    Aa(bool),
+    Tc(bool),
+    Rd(bool),
+    Ra(bool),
+    Ad(bool),
+    Cd(bool),
+    Rcode(u8),
+}
+
+impl HOp {
+    pub fn name(&self) -> &'static str {
+        match self {
+            HOp::Id(_) => "set_id",
+            HOp::Qr(_) => "set_qr",
+            HOp::Opcode(_) => "set_opcode",
+            HOp::Aa(_) => "set_aa",
+            HOp::Tc(_) => "set_tc",
+            HOp::Rd(_) => "set_rd",
+            HOp::Ra(_) => "set_ra",
+            HOp::Ad(_) => "set_ad",
+            HOp::Cd(_) => "set_cd",
+            HOp::Rcode(_) => "set_rcode",
+        }
+    }
+    /// The bits of the flag word the operation owns.
+    pub fn mask(&self) -> u16 {
+        match self {
+            HOp::Id(_) => 0,
+            HOp::Qr(_) => 0x8000,
+            HOp::Opcode(_) => 0x7800,
+            HOp::Aa(_) => 0x0400,
+            HOp::Tc(_) => 0x0200,
+            HOp::Rd(_) => 0x0100,
+            HOp::Ra(_) => 0x0080,
+            HOp::Ad(_) => 0x0020,
+            HOp::Cd(_) => 0x0010,
+            HOp::Rcode(_) => 0x000F,
+        }
+    }
+    /// Reference model (RFC 1035 section 4.1.1 layout, AD/CD of RFC 2535):
+    /// the operation replaces its own field and nothing else.
+    pub fn model(&self, id: &mut u16, flags: &mut u16) {
+        let bit = |f: &mut u16, pos: u32, v: bool| *f = (*f & !(1u16 << pos)) | ((v as u16) << pos);
+        match *self {
+            HOp::Id(v) => *id = v,
+            HOp::Qr(v) => bit(flags, 15, v),
+            HOp::Opcode(v) => *flags = (*flags & !0x7800) | (((v & 0xF) as u16) << 11),
+            HOp::Aa(v) => bit(flags, 10, v),
+            HOp::Tc(v) => bit(flags, 9, v),
+            HOp::Rd(v) => bit(flags, 8, v),
+            HOp::Ra(v) => bit(flags, 7, v),
+            HOp::Ad(v) => bit(flags, 5, v),
+            HOp::Cd(v) => bit(flags, 4, v),
+            HOp::Rcode(v) => *flags = (*flags & !0x000F) | ((v & 0xF) as u16),
+        }
+    }
+}
+
+/// Names of the header fields in which two flag words differ.
+pub fn flag_fields_differing(a: u16, b: u16) -> Vec<&'static str> {
+    const F: &[(&str, u16)] = &[("QR", 0x8000), ("OPCODE", 0x7800), ("AA", 0x0400), ("TC", 0x0200), ("RD", 0x0100), ("RA", 0x0080), ("Z", 0x0040), ("AD", 0x0020), ("CD", 0x0010), ("RCODE", 0x000F)];
+    F.iter().filter(|(_, m)| (a ^ b) & m != 0).map(|(n, _)| *n).collect()
+}
+
+/// 0-8 header operations in generated order, in non-decreasing phases.
+fn header_ops(u: &mut Unstructured) -> Vec<(u8, HOp)> {
+    let n = pick(u, 9);
+    let mut ops = vec![];
+    for _ in 0..n {
+        let phase = pick(u, 3) as u8;
+        let v = byte(u);
+        let b = v & 1 == 1;
+        let op = match pick(u, 12) {
+            0 => HOp::Id(u16::from_be_bytes([v, v.wrapping_mul(31).wrapping_add(7)])),
+            1 => HOp::Qr(b),
+            // the opcode more often: it is the only multi-bit field that is
+            // not at bit position 0
+            2 | 10 | 11 => HOp::Opcode(v >> 4),
+            3 => HOp::Aa(b),
+            4 => HOp::Tc(b),
+            5 => HOp::Rd(b),
+            6 => HOp::Ra(b),
+            7 => HOp::Ad(b),
+            8 => HOp::Cd(b),
+            _ => HOp::Rcode(v >> 4),
+        };
+        ops.push((phase, op));
+    }
+    ops.sort_by_key(|(p, _)| *p); // stable: the generated order survives inside a phase
+    ops
 }
 
 const UNKNOWN_TYPES: &[u16] = &[99, 258, 1234, 65280, 65534, 32768, 11, 18, 40, 0];
@@ -312,7 +416,12 @@ pub fn script(u: &mut Unstructured, thorough: bool) -> Script {
         None
     };
     let truncate_before = if want_truncate && !items.is_empty() { Some(pick(u, items.len())) } else { None };
-    Script { id: u16_(u), flags: if flag(u) { 0x8400 } else { u16_(u) }, questions, items, edns, old_compressor, limit, reuse_compressor, truncate_before, crosses }
+    let id = u16_(u);
+    let flags = if flag(u) { 0x8400 } else { u16_(u) };
+    // drawn last: the decoding of everything above (and so of the stored
+    // replay files) is unchanged
+    let hdr_ops = header_ops(u);
+    Script { id, flags, questions, items, edns, old_compressor, limit, reuse_compressor, truncate_before, crosses, hdr_ops }
 }
 
 /// What a builder's output must contain.
@@ -374,6 +483,40 @@ pub fn build_new(s: &Script, ctx: &mut Ctx) -> Result<Built, Violation> {
         vensure!(b.limit_to(l).is_ok(), "build:new:limit_to-failed-on-empty-message", "limit_to({l}) failed on an empty message");
     }
     let mut ex = Expect { id: s.id, flags: s.flags, questions: vec![], records: vec![], failed_pushes: 0, tc: s.flags & 0x0200 != 0 };
+    // header operations of one phase: through `header_mut()`, each checked
+    // against the model right away (raw bits and every getter)
+    macro_rules! new_hdr_phase {
+        ($phase:expr) => {
+            for (k, (_, op)) in s.hdr_ops.iter().enumerate().filter(|(_, (p, _))| *p == $phase) {
+                let before = ex.flags;
+                {
+                    let h = b.header_mut();
+                    match *op {
+                        HOp::Id(v) => h.id = U16::new(v),
+                        HOp::Qr(v) => drop(h.flags.set_qr(v)),
+                        HOp::Opcode(v) => drop(h.flags.set_opcode(v)),
+                        HOp::Aa(v) => drop(h.flags.set_aa(v)),
+                        HOp::Tc(v) => drop(h.flags.set_tc(v)),
+                        HOp::Rd(v) => drop(h.flags.set_rd(v)),
+                        HOp::Ra(v) => drop(h.flags.set_ra(v)),
+                        HOp::Ad(v) => drop(h.flags.set_ad(v)),
+                        HOp::Cd(v) => drop(h.flags.set_cd(v)),
+                        HOp::Rcode(v) => drop(h.flags.set_rcode(v)),
+                    }
+                }
+                op.model(&mut ex.id, &mut ex.flags);
+                ex.tc = ex.flags & 0x0200 != 0;
+                let h = b.header();
+                let (gid, got) = (h.id.get(), h.flags.bits());
+                vensure!(gid == ex.id, format!("build:new:header-op:{}:id-differs", op.name()), "header operation {k} {op:?} (phase {}): id is {gid:04x}, model {:04x}; all operations: {:?}", $phase, ex.id, s.hdr_ops);
+                vensure!(got == ex.flags, format!("build:new:header-op:{}:flag-fields-differ", op.name()), "header operation {k} {op:?} (phase {}) on flags {before:04x}: builder has {got:04x}, model {:04x}; fields that differ: {:?}; all operations: {:?}", $phase, ex.flags, flag_fields_differing(got, ex.flags), s.hdr_ops);
+                let f = h.flags;
+                let getters = ((f.qr() as u16) << 15) | ((f.opcode() as u16 & 0xF) << 11) | ((f.aa() as u16) << 10) | ((f.tc() as u16) << 9) | ((f.rd() as u16) << 8) | ((f.ra() as u16) << 7) | ((f.ad() as u16) << 5) | ((f.cd() as u16) << 4) | (f.rcode() as u16 & 0xF);
+                vensure!(f.opcode() < 16 && f.rcode() < 16 && getters == ex.flags & !0x0040, format!("build:new:header-op:{}:getters-differ", op.name()), "after header operation {k} {op:?}: getters give {getters:04x} (opcode {}, rcode {}), model {:04x}; fields that differ: {:?}", f.opcode(), f.rcode(), ex.flags, flag_fields_differing(getters, ex.flags & !0x0040));
+            }
+        };
+    }
+    new_hdr_phase!(0);
     for (name, qt, qc, rev) in &s.questions {
         let r = if *rev {
             b.push_question(&NQuestion { qname: nrevname(name), qtype: QType { code: U16::new(*qt) }, qclass: QClass { code: U16::new(*qc) } })
@@ -387,6 +530,7 @@ pub fn build_new(s: &Script, ctx: &mut Ctx) -> Result<Built, Violation> {
             Err(MessageBuildError::Misplaced) => vfail!("build:new:question-misplaced", "first pushes reported Misplaced"),
         }
     }
+    new_hdr_phase!(1);
     for (i, it) in s.items.iter().enumerate() {
         if s.truncate_before == Some(i) {
             b.truncate();
@@ -442,6 +586,7 @@ pub fn build_new(s: &Script, ctx: &mut Ctx) -> Result<Built, Violation> {
             Err(_) => ex.failed_pushes += 1,
         }
     }
+    new_hdr_phase!(2);
     let msg = b.finish();
     let n = 12 + msg.contents.len();
     drop(msg);
@@ -478,6 +623,38 @@ fn old_build_on<T: Composer + AsRef<[u8]>>(target: T, s: &Script) -> Result<Buil
         mb.set_push_limit(l.max(12));
     }
     let mut ex = Expect { id: s.id, flags: s.flags, questions: vec![], records: vec![], failed_pushes: 0, tc: s.flags & 0x0200 != 0 };
+    macro_rules! old_hdr_phase {
+        ($builder:expr, $phase:expr) => {
+            for (k, (_, op)) in s.hdr_ops.iter().enumerate().filter(|(_, (p, _))| *p == $phase) {
+                let before = ex.flags;
+                {
+                    let h = $builder.header_mut();
+                    match *op {
+                        HOp::Id(v) => h.set_id(v),
+                        HOp::Qr(v) => h.set_qr(v),
+                        HOp::Opcode(v) => h.set_opcode(Opcode::from_int(v)),
+                        HOp::Aa(v) => h.set_aa(v),
+                        HOp::Tc(v) => h.set_tc(v),
+                        HOp::Rd(v) => h.set_rd(v),
+                        HOp::Ra(v) => h.set_ra(v),
+                        HOp::Ad(v) => h.set_ad(v),
+                        HOp::Cd(v) => h.set_cd(v),
+                        HOp::Rcode(v) => h.set_rcode(Rcode::masked_from_int(v)),
+                    }
+                }
+                op.model(&mut ex.id, &mut ex.flags);
+                ex.tc = ex.flags & 0x0200 != 0;
+                let h = $builder.header();
+                let raw = h.as_slice();
+                let (gid, got) = (u16::from_be_bytes([raw[0], raw[1]]), u16::from_be_bytes([raw[2], raw[3]]));
+                vensure!(gid == ex.id && h.id() == ex.id, format!("build:old:header-op:{}:id-differs", op.name()), "header operation {k} {op:?} (phase {}): id is {gid:04x}, model {:04x}; all operations: {:?}", $phase, ex.id, s.hdr_ops);
+                vensure!(got == ex.flags, format!("build:old:header-op:{}:flag-fields-differ", op.name()), "header operation {k} {op:?} (phase {}) on flags {before:04x}: builder has {got:04x}, model {:04x}; fields that differ: {:?}; all operations: {:?}", $phase, ex.flags, flag_fields_differing(got, ex.flags), s.hdr_ops);
+                let getters = ((h.qr() as u16) << 15) | ((h.opcode().to_int() as u16 & 0xF) << 11) | ((h.aa() as u16) << 10) | ((h.tc() as u16) << 9) | ((h.rd() as u16) << 8) | ((h.ra() as u16) << 7) | ((h.z() as u16) << 6) | ((h.ad() as u16) << 5) | ((h.cd() as u16) << 4) | (h.rcode().to_int() as u16 & 0xF);
+                vensure!(h.opcode().to_int() < 16 && h.rcode().to_int() < 16 && getters == ex.flags, format!("build:old:header-op:{}:getters-differ", op.name()), "after header operation {k} {op:?}: getters give {getters:04x}, model {:04x}; fields that differ: {:?}", ex.flags, flag_fields_differing(getters, ex.flags));
+            }
+        };
+    }
+    old_hdr_phase!(mb, 0);
     let mut qb = mb.question();
     for (name, qt, qc, _) in &s.questions {
         match qb.push((gn::to_name(name), Rtype::from_int(*qt), Class::from_int(*qc))) {
@@ -519,6 +696,7 @@ fn old_build_on<T: Composer + AsRef<[u8]>>(target: T, s: &Script) -> Result<Buil
             }
         };
     }
+    old_hdr_phase!(qb, 1);
     let mut an = qb.answer();
     push_items!(an, 1);
     let mut au = an.authority();
@@ -536,6 +714,7 @@ fn old_build_on<T: Composer + AsRef<[u8]>>(target: T, s: &Script) -> Result<Buil
             Err(_) => ex.failed_pushes += 1,
         }
     }
+    old_hdr_phase!(ad, 2);
     let bytes = ad.as_slice().to_vec();
     Ok(Built { bytes, expect: ex })
 }
@@ -602,7 +781,7 @@ pub fn check_output(who: &str, out: &Built, ctx: &mut Ctx) -> Result<OutStats, V
         }
     }
     // header
-    vensure!(w.header.id == ex.id && w.header.flags == ex.flags, format!("build:{who}:header-differs"), "script id={:04x} flags={:04x}, output id={:04x} flags={:04x}", ex.id, ex.flags, w.header.id, w.header.flags);
+    vensure!(w.header.id == ex.id && w.header.flags == ex.flags, format!("build:{who}:header-differs"), "script id={:04x} flags={:04x}, output id={:04x} flags={:04x}; flag fields that differ: {:?}", ex.id, ex.flags, w.header.id, w.header.flags, flag_fields_differing(ex.flags, w.header.flags));
     // (2) the OTHER codec (and, for classification, the producing one)
     let other_is_new = who == "old";
     let om = domain::base::Message::from_slice(msg).map_err(|_| Violation::new(format!("build:{who}:old-reader-rejects-header"), "short"))?;
@@ -678,6 +857,9 @@ fn audit_name(who: &str, msg: &[u8], pos: usize, limit: usize, st: &mut OutStats
 
 pub fn show_script(s: &Script) -> String {
     let mut o = format!("id={} flags={:04x} old_compressor={} limit={:?} reuse_compressor={} truncate_before={:?}\n", s.id, s.flags, s.old_compressor, s.limit, s.reuse_compressor, s.truncate_before);
+    if !s.hdr_ops.is_empty() {
+        o.push_str(&format!("  header operations (phase, op): {:?}\n", s.hdr_ops));
+    }
     for q in &s.questions {
         o.push_str(&format!("  Q {} type={} class={} rev={}\n", gn::show(&q.0), q.1, q.2, q.3));
     }
@@ -704,10 +886,10 @@ fn it(section: u8, owner: Labels, rtype: u16, rdata: Vec<u8>, rev_owner: bool) -
 }
 
 fn base() -> Script {
-    Script { id: 0x1234, flags: 0x8400, questions: vec![], items: vec![], edns: None, old_compressor: 0, limit: None, reuse_compressor: false, truncate_before: None, crosses: false }
+    Script { id: 0x1234, flags: 0x8400, questions: vec![], items: vec![], edns: None, old_compressor: 0, limit: None, reuse_compressor: false, truncate_before: None, crosses: false, hdr_ops: vec![] }
 }
 
-pub const REGRESS_COUNT: u64 = 10;
+pub const REGRESS_COUNT: u64 = 11;
 
 /// Scripts that reproduce, each in its smallest form, the defects of the
 /// new builder / name compressor found by the generated search (C19-X4…X9).
@@ -804,6 +986,33 @@ pub fn regress_script(i: u64) -> Option<(&'static str, Script)> {
             s.edns = Some((1232, 0x8000, vec![0, 10, 0, 8, 1, 2, 3, 4, 5, 6, 7, 8]));
             s.old_compressor = 3;
             ("mixed", s)
+        }
+        10 => {
+            // header operations in an order other than top-down: every
+            // multi-bit field is replaced while all other fields are set,
+            // before and after pushes (seeded change C19-r6-1)
+            s.flags = 0x0000;
+            s.questions = vec![(n("example.com."), 6, 1, false)];
+            s.items = vec![it(2, n("example.com."), 2, gn::to_wire(&n("ns.example.com.")), false)];
+            s.hdr_ops = vec![
+                (0, HOp::Aa(true)),
+                (0, HOp::Rd(true)),
+                (0, HOp::Rcode(9)),
+                (0, HOp::Opcode(5)),
+                (1, HOp::Qr(true)),
+                (1, HOp::Tc(true)),
+                (1, HOp::Ra(true)),
+                (1, HOp::Ad(true)),
+                (1, HOp::Cd(true)),
+                (1, HOp::Opcode(4)),
+                (2, HOp::Rcode(0)),
+                (2, HOp::Rcode(15)),
+                (2, HOp::Opcode(15)),
+                (2, HOp::Id(0xBEEF)),
+                (2, HOp::Opcode(0)),
+                (2, HOp::Aa(false)),
+            ];
+            ("header-ops-any-order", s)
         }
         _ => return None,
     })
